@@ -13,8 +13,8 @@ def walk(tree, stack, hist, counter):
     for it in tree["items"]:
         if "call" in it:
             walk(it["call"], st, hist, counter)
-        elif it["name"] == "!raise":
-            pass
+        elif it["name"] == "!raise" or it["value"] is None:
+            pass            # (a declaration without a value binds nothing)
         else:
             hist.append((it["name"], it["cat"], it["value"]["v"] if it["value"] else None, st))
 
@@ -154,8 +154,8 @@ def walk_acts(tree, stack, hist, acts, counter):
     for it in tree["items"]:
         if "call" in it:
             walk_acts(it["call"], st, hist, acts, counter)
-        elif it["name"] == "!raise":
-            pass
+        elif it["name"] == "!raise" or it["value"] is None:
+            pass            # (a declaration without a value binds nothing)
         else:
             hist.append((it["name"], it["cat"], it["value"]["v"] if it["value"] else None, st))
     acts.append(st)
